@@ -101,10 +101,12 @@ def gen_scenario(rnd, size="small", jobs_heavy=False):
     post = [{"susp": rnd.choice([0, 1, 2]), "raise": rnd.random() < 0.1} for _ in range(rnd.choice([0, 0, 1, 2]))]
     return {"sources": sources, "kinds": kinds, "jobs": jobs, "bev": bev, "bjob": bjob, "handlers": handlers,
             "pre": pre, "post": post, "mc": rnd.choice([1, 1, 2, 3, 50]), "job_susp": job_susp, "job_raise": job_raise,
-            "twins": twins, "job_flavour": job_flavour}
+            "twins": twins, "job_flavour": job_flavour,
+            # handlers / jobs that fail raise exceptions without arguments in half of the scenarios
+            "raise_noargs": rnd.random() < 0.5}
 
 
-def gen_long(rnd, n=1100):
+def gen_long(rnd, n=1300):
     """One source with more than a thousand events (a few ties), a derived source fed by every seventh event, a
     few jobs: long enough for chunked / capped containers to wrap around."""
     evs, t, e = [], 10, 0
@@ -120,6 +122,15 @@ def gen_long(rnd, n=1100):
         if ev % 7 == 0:
             next_e += 1
             bev[str(ev)] = [["push", 1, w, next_e]]
+            bev[str(next_e)] = []
+    # late in the history, handlers also push to the long source itself (events dated after everything it holds)
+    t_end = evs[-1][0]
+    for k, idx in enumerate([n - 250, n - 120, n - 40]):
+        if idx > 0:
+            next_e += 1
+            t_end += 7
+            cur = bev.get(str(evs[idx][1]), [])
+            bev[str(evs[idx][1])] = cur + [["push", 0, t_end, next_e]]
             bev[str(next_e)] = []
     jobs = [[rnd.choice([5, evs[n // 2][0], evs[-1][0] + 3]), j + 1] for j in range(3)]
     return {"sources": [evs, der], "kinds": ["prim", "der"], "jobs": jobs, "bev": bev, "bjob": {},
